@@ -167,3 +167,30 @@ func BodyPanics(stmts []ast.Stmt) bool {
 	}
 	return false
 }
+
+// BinaryExprAt finds the source text of the binary expression whose operator is at pos.
+func (p *Prog) BinaryExprAt(fn *ssa.Function, pos token.Pos) string {
+	root := fn
+	for root.Parent() != nil {
+		root = root.Parent()
+	}
+	var body ast.Node = p.Body(root)
+	if body == nil {
+		return ""
+	}
+	out := ""
+	ast.Inspect(body, func(n ast.Node) bool {
+		switch x := n.(type) {
+		case *ast.BinaryExpr:
+			if x.OpPos == pos {
+				out = types.ExprString(x)
+			}
+		case *ast.AssignStmt:
+			if x.TokPos == pos && len(x.Lhs) == 1 && len(x.Rhs) == 1 {
+				out = types.ExprString(x.Lhs[0]) + " " + x.Tok.String() + " " + types.ExprString(x.Rhs[0])
+			}
+		}
+		return out == ""
+	})
+	return out
+}
